@@ -18,14 +18,16 @@ func init() {
 		Decided: "C15.1 size table ↔ encoder agreement: for every compact list type, ElemSize() = (20 if the element carries an ID) + IP width the type's own MarshalBinary normalises to (To4 → 4, To16 → 16; raw 20-byte arrays for infohashes) + 2; MarshalBinary goes through the width-asserting helper (or emits len × ElemSize bytes), UnmarshalBinary through unmarshalBinarySlice on the receiver itself; expected table 6 / 18 / 26 / 38 / 20; " +
 			"C15.2 partial elements are an error, not a slice past the end: every index/slice of wire bytes in the decoders is guarded by a length fact or a recover (engine H, shared with C01.2); the element decoder is handed exactly b[:ElemSize] and the cursor advances by exactly ElemSize, both under len(b) ≥ ElemSize; " +
 			"C15.3 method pairing: every krpc type with MarshalBencode/MarshalBinary has the matching Unmarshal on its pointer and vice versa; the nodes file is written and read through the same compact type, and the writer replaces the file (create+truncate); " +
-			"C15.4 tag table: within every wire struct (embedded structs flattened) bencode keys are unique and every field has a tag.",
+			"C15.4 tag table: within every wire struct (embedded structs flattened) bencode keys are unique and every field has a tag; " +
+			"C15.5 encoding is read-only on the message: in everything reachable from the krpc Marshal* methods no append, copy or element store has a destination that is (part of) a field of the value being encoded - append into a message slice would write its spare capacity, which may alias a neighbouring address.",
 		NotDecided: "round-trip identity and decode→encode fixpoint over all values (a value-level statement about the bencode library and net.IP forms); acceptance of every multiple-of-ElemSize input.",
-		Assume: []string{"github.com/anacrolix/torrent/bencode re-panics runtime errors raised inside UnmarshalBencode callbacks (read in its decoder), so decoder guards are load-bearing"},
+		Assume:     []string{"github.com/anacrolix/torrent/bencode re-panics runtime errors raised inside UnmarshalBencode callbacks (read in its decoder), so decoder guards are load-bearing"},
 		Rules: []*Rule{
 			{ID: "C15.1", Doc: "compact element sizes agree with the encoders", Floor: 10, Run: c15r1},
 			{ID: "C15.2", Doc: "wire bytes never indexed unguarded; fixed-width element cursor", Floor: 10, Run: c15r2},
 			{ID: "C15.3", Doc: "Marshal/Unmarshal pairing; nodes file", Floor: 8, Run: c15r3},
 			{ID: "C15.4", Doc: "bencode tags unique and complete", Floor: 5, Run: c15r4},
+			{ID: "C15.5", Doc: "encoders do not write into the message they encode", Floor: 3, Run: c15r5},
 		},
 	})
 }
@@ -425,4 +427,92 @@ func c15r4(w *World, rr *RuleRun) {
 	if n == 0 {
 		rr.Oblige("krpc", "wire structs exist", "-", false, "")
 	}
+}
+
+// c15r5: the encoders never use storage of the message as an output buffer.
+func c15r5(w *World, rr *RuleRun) {
+	var roots []*ssa.Function
+	for _, f := range w.P.LibFuncs {
+		if f.Pkg == nil || f.Pkg.Pkg.Name() != "krpc" || f.Signature.Recv() == nil || f.Parent() != nil {
+			continue
+		}
+		if strings.HasPrefix(f.Name(), "Marshal") {
+			roots = append(roots, f)
+		}
+	}
+	if len(roots) < 5 {
+		rr.Broken("only %d krpc Marshal* methods found", len(roots))
+	}
+	reach := w.CG.Reach(roots, func(e *Edge) bool { return w.P.IsLib(e.Callee) })
+	// part of the encoded message: a field selection whose base involves a parameter/receiver
+	inMessage := func(t *Term) bool {
+		hit := false
+		t.Walk(func(x *Term) bool {
+			if x.Op == OpField {
+				x.Walk(func(y *Term) bool {
+					if y.Op == OpParam {
+						hit = true
+					}
+					return !hit
+				})
+			}
+			return !hit
+		})
+		return hit
+	}
+	nDest := 0
+	var fns []*ssa.Function
+	for f := range reach {
+		fns = append(fns, f)
+		fns = append(fns, allAnon(f)...)
+	}
+	sort.Slice(fns, func(i, j int) bool { return fns[i].Pos() < fns[j].Pos() })
+	seen := map[*ssa.Function]bool{}
+	for _, f := range fns {
+		if seen[f] {
+			continue
+		}
+		seen[f] = true
+		for _, b := range f.Blocks {
+			for _, ins := range b.Instrs {
+				if st, ok := ins.(*ssa.Store); ok {
+					if ia, ok := st.Addr.(*ssa.IndexAddr); ok {
+						if _, isSlice := ia.X.Type().Underlying().(*types.Slice); isSlice {
+							nDest++
+							t := w.TS.Of(ia.X)
+							rr.At(w, ins, "element store while encoding does not target the message's own slices", !inMessage(t), "into "+trunc(t.String(), 120))
+						}
+					}
+					continue
+				}
+				c := callInstrCommon(ins)
+				if c == nil {
+					continue
+				}
+				var dst ssa.Value
+				what := ""
+				if bi, ok := c.Value.(*ssa.Builtin); ok && (bi.Name() == "append" || bi.Name() == "copy") && len(c.Args) > 0 {
+					dst, what = c.Args[0], bi.Name()
+				} else if o := calleeObj(c); o != nil && strings.HasPrefix(o.Name(), "Append") && o.Pkg() != nil && !strings.HasPrefix(o.Pkg().Path(), modPath) {
+					sig := o.Type().(*types.Signature)
+					off := 0
+					if sig.Recv() != nil && !c.IsInvoke() {
+						off = 1
+					}
+					if sig.Params().Len() > 0 && off < len(c.Args) {
+						if sl, ok := sig.Params().At(0).Type().Underlying().(*types.Slice); ok && types.Identical(sl.Elem(), types.Typ[types.Byte]) {
+							dst, what = c.Args[off], o.Name()
+						}
+					}
+				}
+				if dst == nil {
+					continue
+				}
+				nDest++
+				t := w.TS.Of(dst)
+				rr.At(w, ins, what+" destination while encoding is not storage of the message", !inMessage(t), "destination "+trunc(t.String(), 120))
+			}
+		}
+	}
+	rr.ObligeTrivial("krpc", "encoder closure analysed", "-", true, fmt.Sprintf("%d Marshal* roots, %d reachable functions, %d destinations", len(roots), len(reach), nDest))
 }
